@@ -77,7 +77,7 @@ _add(
          "frequency*refrac<1000 limit, and for the Bernoulli encoders also above one expected spike per step (clamped); 1-300 steps; intensities in [0,1] with exact zeros and ones), run twice from the "
          "same generator state. Non-trivial: the refractory encoder, or any case with a zero-intensity element; "
          "distinct = (encoder, online, module, dt, refractory, compensation, steps class, zero pattern, rank) abstractions.",
-    required=["shape_dtype_checks", "reproducibility_checks", "zero_intensity_elements", "refractory_gaps_checked", "zero_intensity_element_steps_in_storms", "setter_configured_encoders"],
+    required=["shape_dtype_checks", "reproducibility_checks", "zero_intensity_elements", "refractory_gaps_checked", "zero_intensity_element_steps_in_storms", "setter_configured_encoders", "uncompensated_above_compensation_limit"],
     floor={"quick": 200, "thorough": 400},
     text="Held on every generator seed explored: the real encoders are run over a seed sweep and every output is "
          "checked for dtype, shape / slice count, silence of zero-intensity elements, the minimum spike gap of the "
@@ -278,7 +278,7 @@ _add(
          "rule; (d) exactly constructed t_delta == 0 ties. One evaluation = one step judged; distinct = (part, trainer, "
          "cell type, delay values, sign mode, reduction, batch, reward kind, active/silent).",
     required=["formula_steps_checked", "steps_with_change", "steps_before_both_sides_spiked", "trainer_clears", "cross_steps_checked",
-              "zero_delay_steps_checked", "ties_checked", "tensor_valued_kernel_kwargs_cases", "multicell_steps_checked"],
+              "zero_delay_steps_checked", "ties_checked", "tensor_valued_kernel_kwargs_cases", "multicell_steps_checked", "kernel_delayed_substep_delay_steps"],
     floor={"quick": 60, "thorough": 150},
     text="Held on every history explored: the change applied by each real delay-adjusted / kernel trainer after every "
          "step equals the documented function of t_delta built from the true most-recent spike times and the delay read "
